@@ -69,7 +69,9 @@ MANIFEST_TEXT = ('Exhaustive enumeration of ragged sequence collections against 
                  '3-call history on one PWM object with the first result re-observed afterwards), '
                  'count_kmers (flat and per row), KmerEncoding.to_string/encode. Every value is compared with the definition on '
                  'the row alone (window count per row, none for short rows, little-endian code, rendered text, min, match, score, '
-                 'counts) and every multi-row result with the result of the same call on each row alone.')
+                 'counts) and every multi-row result with the result of the same call on each row alone. A size ladder (collections with N = 2^k-1/2^k/2^k+1 '
+                 'windows for k = 8..21, 10^k+-1 for k = 3..6, 2*10^6+-1; thorough also 3*10^6, 2^22) compares get_kmers and count_kmers (flat and per row) '
+                 'with whole-array arithmetic, for the paths chosen by the number of windows.')
 MANIFEST_NOTE = ('Trusted: NumPy, npstructures, CPython, as_encoded_array and ragged slicing for input construction, '
                  'ravel()/raw()/lengths for observation, models/windows.py (self-tested against bionumpy\'s documented '
                  'examples and hand-computed codes). Rows longer than 2w, more than 4 rows, |A|**k >= 2**63 are not explored.')
@@ -183,9 +185,111 @@ def sub_shards(tier, seed):
                         continue
                     out.append({'part': 'B', 'alphabet': name, 'w': w, 'repr': rep, 'fill': fill, 'nrows': int(nrows_s),
                                 'lengths': 'full' if lset == FULL else 'narrow'})
+    for name, w in LADDER_TARGETS:
+        for n in ladder_sizes(tier):
+            out.append({'part': 'L', 'alphabet': name, 'w': w, 'nrows': 3, 'n': n})
     out.sort(key=lambda d: (d['nrows'], d['w'], d['part'], d['alphabet'], d.get('repr', ''), d.get('fill', ''),
-                            d.get('slice', [0])[0]))
+                            d.get('slice', [0])[0], d.get('n', 0)))
     return out
+
+
+# Size ladder: the enumeration above decides content- and boundary-dependence on short rows; a path chosen by the NUMBER of
+# windows (block-wise counting of long inputs) needs long inputs.  One collection per ladder size N: three rows that give
+# N-1, 1 and 0 windows; get_kmers and count_kmers (flat and per row) are compared with whole-array NumPy arithmetic.
+LADDER_TARGETS = [('ACGT', 1), ('ACGT', 2), ('ACG', 2)]
+
+
+def ladder_sizes(tier):
+    ns = set()
+    for k in range(8, 22):
+        ns.update((2 ** k - 1, 2 ** k, 2 ** k + 1))
+    for k in range(3, 7):
+        ns.update((10 ** k - 1, 10 ** k, 10 ** k + 1))
+    ns.update((2 * 10 ** 6 - 1, 2 * 10 ** 6, 2 * 10 ** 6 + 1))
+    if tier != 'quick':
+        ns.update((3 * 10 ** 6 - 1, 3 * 10 ** 6, 3 * 10 ** 6 + 1, 2 ** 22 - 1, 2 ** 22, 2 ** 22 + 1))
+    return sorted(ns)
+
+
+def ladder_rows(alphabet, w, n):
+    """three rows with n-1, 1 and 0 windows of length w; letters from a fixed quadratic pattern"""
+    na = len(alphabet)
+    lengths = [n - 1 + w - 1 if n > 1 else w - 1, w, w - 1]
+    total = sum(lengths)
+    j = np.arange(total, dtype=np.int64)
+    idx = (j * j + j // na + 1) % na
+    letters = np.frombuffer(alphabet.encode(), dtype=np.uint8)[idx].tobytes().decode()
+    rows, pos = [], 0
+    for l in lengths:
+        rows.append(letters[pos:pos + l])
+        pos += l
+    return rows, idx, lengths
+
+
+def check_ladder(res, desc):
+    import bionumpy as bnp
+    name, w, n = desc['alphabet'], desc['w'], desc['n']
+    alphabet = ALPHABETS[name]
+    na = len(alphabet)
+    rows, idx, lengths = ladder_rows(alphabet, w, n)
+    size = '<10^5' if n < 10 ** 5 else ('10^5..10^6' if n <= 10 ** 6 else '>10^6')
+    feats = {'path': 'size4' if na == 4 else 'other-size', 'window': str(w), 'windows_in_collection': size, 'rows': 'multi'}
+    case = {'ladder': True, 'alphabet': name, 'w': w, 'n': n}
+    res.evaluations += 1
+    res.states += 1
+    res.planned += 1
+    res.traces += 1
+    res.nontrivial += 1
+    # expected per row: codes of the windows (little-endian base-|A|), whole-array arithmetic
+    exp_codes, pos = [], 0
+    for l in lengths:
+        r = idx[pos:pos + l]
+        pos += l
+        m = max(l - w + 1, 0)
+        c = np.zeros(m, dtype=np.int64)
+        for i in range(w):
+            c += r[i:i + m] * na ** i
+        exp_codes.append(c)
+    flat_exp = np.concatenate(exp_codes)
+    exp_counts_rows = np.array([np.bincount(c, minlength=na ** w) for c in exp_codes])
+    arr = bnp.as_encoded_array(rows, encoding(name))
+
+    def run(func, call, judge):
+        res.transitions += 1
+        try:
+            out = call()
+            bad = judge(out)
+        except observe.ObserverError:
+            raise
+        except Exception as e:
+            res.fail('call-raises', dict(case, func=func), dict(feats, func=func), expected='a result',
+                     observed='%s: %s' % (type(e).__name__, str(e)[:200]), tb=tb_string(e))
+            res.outcome('ladder:%s:raises' % func)
+            return
+        if bad:
+            res.fail(bad[0], dict(case, func=func), dict(feats, func=func), expected=bad[1], observed=bad[2])
+        res.outcome('ladder:%s:%s:%s' % (func, size, 'differs' if bad else 'ok'))
+
+    def judge_kmers(out):
+        got_lengths = np.asarray(out._shape.lengths).tolist()
+        if got_lengths != [len(c) for c in exp_codes]:
+            return ('windows-per-row', [len(c) for c in exp_codes], got_lengths)
+        got = np.asarray(out.ravel().raw()).astype(np.int64)
+        if not np.array_equal(got, flat_exp):
+            i = int(np.flatnonzero(got != flat_exp)[0])
+            return ('kmer-code', {'window': i, 'code': int(flat_exp[i])}, {'window': i, 'code': int(got[i])})
+
+    def judge_counts(expected):
+        def judge(out):
+            got = np.asarray(out.counts)
+            if got.shape != expected.shape or not np.array_equal(got, expected):
+                return ('kmer-count', {'total': int(expected.sum()), 'counts': expected.tolist() if expected.size <= 64 else '...'},
+                        {'total': int(got.sum()), 'counts': got.tolist() if got.size <= 64 else '...'})
+        return judge
+
+    run('get_kmers', lambda: bnp.get_kmers(arr, w), judge_kmers)
+    run('count_kmers', lambda: bnp.sequence.count_kmers(arr, w), judge_counts(exp_counts_rows.sum(axis=0)))
+    run('count_kmers(axis=-1)', lambda: bnp.sequence.count_kmers(arr, w, axis=-1), judge_counts(exp_counts_rows))
 
 
 def _simplicity(d):
@@ -194,6 +298,8 @@ def _simplicity(d):
 
 def _estimated_calls(d):
     """rough number of library calls of a sub-shard (only used to balance the shards)"""
+    if d['part'] == 'L':
+        return 3 + d['n'] / 2000.0
     km = kmax(ALPHABETS[d['alphabet']])
     per_case = 7 + min(d['w'], km)
     if d['part'] == 'A':
@@ -698,6 +804,12 @@ def run_shard(desc, deadline):
     res = Result()
     run_twins(res, desc.get('shard', 0))
     for sub in desc['subs']:
+        if sub['part'] == 'L':
+            if deadline.expired():
+                res.capped = True
+                return res
+            check_ladder(res, sub)
+            continue
         st = ShardState()
         for n, (rows, rep) in enumerate(cases_of_shard(sub)):
             if n % 16 == 0 and deadline.expired():
@@ -709,6 +821,11 @@ def run_shard(desc, deadline):
 
 def replay_case(case):
     res = Result()
+    if case.get('ladder'):
+        check_ladder(res, {'alphabet': case['alphabet'], 'w': case['w'], 'n': case['n']})
+        return [{'kind': g['kind'], 'features': g['features'], 'observed': g['exemplars'][0]['observed'],
+                 'expected': g['exemplars'][0]['expected'], 'traceback': g['exemplars'][0]['traceback']}
+                for g in res.fail_groups.values() if g['exemplars'][0]['case'].get('func') == case.get('func')]
     check_case(res, ShardState(), case['alphabet'], case['rows'], case['w'], case['repr'], only_unit=case['unit'])
     return [{'kind': g['kind'], 'features': g['features'], 'observed': g['exemplars'][0]['observed'],
              'expected': g['exemplars'][0]['expected'], 'traceback': g['exemplars'][0]['traceback']}
@@ -716,6 +833,10 @@ def replay_case(case):
 
 
 def repro_py(case):
+    if case.get('ladder'):
+        return ('import numpy as np, bionumpy as bnp\n# three rows with %d, 1 and 0 windows of length %d over %r (letters: (j*j + j//|A| + 1) %% |A|)\n'
+                '# see checks/c13_windows.py ladder_rows(); replay with bin/vcheck replay <this file>\n'
+                % (case['n'] - 1, case['w'], ALPHABETS[case['alphabet']]))
     unit = case['unit']
     alpha = ALPHABETS[case['alphabet']]
     rows, w, rep = case['rows'], case['w'], case['repr']
